@@ -109,10 +109,17 @@ func (p *Provider) runFullScan(ctx context.Context) error {
 		if err != nil {
 			if errors.Is(err, decoders.ErrAmmoLimit) || errors.Is(err, decoders.ErrPassLimit) {
 				err = nil
+				if delivered == 0 && len(p.Config.ChosenCases) > 0 {
+					err = decoders.ErrNoAmmo // chosencases matched nothing; as the preloaded provider
+				}
 			}
 			return err
 		}
 		if !confutil.IsChosenCase(ammo.Tag(), p.Config.ChosenCases) {
+			// a whole pass without a chosen ammo: do not rescan the file forever
+			if pc, ok := p.Decoder.(interface{ PassNum() uint }); ok && delivered == 0 && pc.PassNum() > 0 {
+				return decoders.ErrNoAmmo
+			}
 			continue
 		}
 
